@@ -194,7 +194,7 @@ class EChaos(Engine):
             return g.pick([{'t': 'str', 'v': ', '.join(g.pick(TOKENS) for _ in range(g.int(1, 3)))},
                            {'t': 'list', 'items': [g.pick([{'t': 'str', 'v': g.pick(TOKENS)}, {'t': 'int', 'v': g.pick([0, 1, 5, -1, n + 1])}]) for _ in range(g.int(0, 3))]}])
         if pname == 'fmt' and member == 'byteswap':
-            return g.pick([{'t': 'none'}, {'t': 'int', 'v': g.pick([0, 1, 2, 3, -1, 2 ** 31])}, {'t': 'str', 'v': g.pick(['h', '2h', '<bh', '>q', 'x', '', '0h', '3b', 'hh', '@I'])}, self._iter_spec(g, 4)])
+            return g.pick([{'t': 'none'}, {'t': 'int', 'v': g.pick([0, 1, 2, 3, -1, 2 ** 31])}, {'t': 'str', 'v': g.pick(['h', '2h', '<bh', '>q', 'x', '', '0h', '3b', 'hh', '@I', '99999999999999999999h', '>99999999999999999999b2h'])}, self._iter_spec(g, 4)])
         if pname in ('dtype', 'new_dtype') or 'Dtype' in a and 'str' in a:
             return g.pick([{'t': 'str', 'v': g.pick(TOKENS)}, {'t': 'dtype', 'token': g.pick(TOKENS[:30])}])
         if 'BitsType' in a or pname in ('bs', 'prefix', 'suffix', 'delimiter', 'old', 'new') or a in ("'Bits'", 'Bits'):
